@@ -29,7 +29,7 @@ COMPONENTS = {
 }
 EXPECTED_PROBES = ('wsgi_pipelined', 'wsgi_early_eof', 'wsgi_short_reads', 'asgi_disconnect',
                    'asgi_oversized_chunk', 'asgi_missing_keys', 'asgi_empty_chunk', 'cl_absent',
-                   'cl_shorter', 'cl_longer', 'eof_reported')
+                   'cl_shorter', 'cl_longer', 'eof_reported', 'exhaust_inside_iteration')
 ASSUMPTIONS = (
     'end-of-stream is "reported" when eof is true, when a read with size>0 or without size returns '
     "b'', or when iteration stops",
@@ -217,7 +217,7 @@ def run_wsgi(ctx):
 # ASGI
 # ---------------------------------------------------------------------------
 A_READ_OPS = ['read_n', 'read', 'readall', 'exhaust', 'close', 'tell', 'eof']
-A_ITER_OPS = ['iter_j', 'iter', 'exhaust', 'close', 'tell', 'eof']
+A_ITER_OPS = ['iter_j', 'iter', 'exhaust', 'close', 'tell', 'eof', 'iter_x']
 
 
 def gen_asgi_history(ch):
@@ -231,16 +231,16 @@ def gen_asgi_history(ch):
             name = A_READ_OPS[k]
             ops.append((name, ch.draw(12, 'size')) if name == 'read_n' else (name,))
         else:
-            k = ch.weighted([3, 3, 1, 1, 3, 3], 'op')
+            k = ch.weighted([3, 3, 1, 1, 3, 3, 1], 'op')
             name = A_ITER_OPS[k]
-            if broke and name in ('iter_j', 'iter'):
+            if broke and name in ('iter_j', 'iter', 'iter_x'):
                 name = 'eof'
             if name == 'iter_j':
                 ops.append((name, 1 + ch.draw(3, 'j')))
                 broke = True
             else:
                 ops.append((name,))
-                if name == 'iter':
+                if name in ('iter', 'iter_x'):
                     broke = True
     return ops
 
@@ -368,6 +368,21 @@ def run_asgi(ctx):
                             acc.append(chunk)
                         rec['ret'] = b''.join(acc)
                         rec['stop'] = True
+                    elif name == 'iter_x':
+                        # inside the loop body the application decides it has seen enough and
+                        # drains the rest; the loop itself is left to run on
+                        acc, after = [], []
+                        async for chunk in s:
+                            if not acc:
+                                acc.append(chunk)
+                                await s.exhaust()
+                            else:
+                                after.append(chunk)
+                                if len(after) > 50:
+                                    break
+                        rec['ret'] = b''.join(acc)
+                        rec['after'] = b''.join(after)
+                        rec['stop'] = True
                     elif name == 'exhaust':
                         await s.exhaust()
                         rec['ret'] = b''
@@ -426,6 +441,20 @@ def run_asgi(ctx):
         if rec['ret'] is None:
             break             # op did not complete (blocked)
         ret = rec['ret']
+        if name == 'iter_x':
+            ctx.probe('exhaust_inside_iteration')
+            if rec.get('after'):
+                ctx.violate('asgi.stream.prefix', 'the iteration went on yielding %r after exhaust() had '
+                            'discarded the rest of the body (events %r)' % (rec['after'][:40], ctx.plan['events']),
+                            op=name)
+                break
+            got += ret
+            if not avail.startswith(got):
+                ctx.violate('asgi.stream.prefix', 'after %r the returned bytes %r are not a prefix of the '
+                            'declared body %r' % (rec['op'], got, avail), op=name)
+                break
+            tell_ok = False
+            ret = avail[len(got):]       # discarded by the exhaust() inside the loop
         if name in ('exhaust', 'close'):
             tell_ok = False
             if name == 'close':
